@@ -43,6 +43,10 @@ type mxSpec struct {
 	// cname: the MX host name is an alias; address and TLSA records live at
 	// the canonical name (RFC 7672 section 2.2.2)
 	cname bool
+	// aFail: the DNSSEC-aware resolver answers the A query for this host with
+	// SERVFAIL (a bogus signature, a broken server) while an AAAA record exists
+	// and is answered without the AD flag
+	aFail bool
 }
 
 func (m *mxSpec) canon() string { return strings.Replace(m.host, ".dest.", ".canon.", 1) }
@@ -197,7 +201,8 @@ func (w *world) gen() {
 		tlsa := []string{"none", "none", "ee-match", "ee-mismatch", "ta-match", "unusable", "servfail"}[s.T.Choose(st, 7)]
 		down := nmx > 1 && s.T.Choose(st, 5) == 0
 		cname := s.T.Choose(st, 4) == 0 && tlsa != "ta-match"
-		w.mxs = append(w.mxs, &mxSpec{host: host, pref: uint16(10 * (i + 1)), tlsa: tlsa, down: down, cname: cname, mx: &actors.ScriptedMX{Host: host, Plan: p, PKI: actors.SharedPKI()}})
+		aFail := s.T.Choose(st, 12) == 0 && !cname
+		w.mxs = append(w.mxs, &mxSpec{host: host, pref: uint16(10 * (i + 1)), tlsa: tlsa, down: down, cname: cname, aFail: aFail, mx: &actors.ScriptedMX{Host: host, Plan: p, PKI: actors.SharedPKI()}})
 	}
 	switch s.T.Choose(st, 3) {
 	case 0:
@@ -480,7 +485,21 @@ func (w *world) dnsExchange(ctx context.Context, q *dns.Msg, server string) (*dn
 				r.Answer = append(r.Answer, &dns.MX{Hdr: hdr(dns.TypeMX), Preference: m.pref, Mx: m.host + "."})
 			}
 		}
+	case dns.TypeAAAA:
+		for _, m := range w.mxs {
+			if m.aFail && name == m.host+"." {
+				r.AuthenticatedData = false
+				r.Answer = append(r.Answer, &dns.AAAA{Hdr: hdr(dns.TypeAAAA), AAAA: net.ParseIP("2001:db8::7")})
+			}
+		}
 	case dns.TypeA:
+		for _, m := range w.mxs {
+			if m.aFail && name == m.host+"." {
+				w.s.Stat("fault_dns_a_servfail")
+				r.Rcode = dns.RcodeServerFailure
+				return r, nil
+			}
+		}
 		for _, m := range w.mxs {
 			switch {
 			case name == m.host+"." && m.cname:
@@ -846,6 +865,11 @@ func (w *world) oracleC05() {
 				continue
 			}
 			policiesOff := m.tlsOverride && w.override
+			if !policiesOff && w.useDANE && adTrusted && mx.aFail {
+				// RFC 7672 2.2: address records whose lookup fails (bogus,
+				// indeterminate) - the client must not connect to that host
+				fail("dane-discovery-failed", "the A lookup for this MX failed (SERVFAIL) under DNSSEC-aware discovery - the host must not be used, an unauthenticated AAAA answer does not make up for it")
+			}
 			if !policiesOff && w.useDANE && adTrusted && mx.tlsa == "servfail" {
 				fail("dane-discovery-failed", "the TLSA lookup for this MX failed (SERVFAIL) - delivery has to be deferred, not performed")
 			}
